@@ -271,6 +271,34 @@ pub fn run(ctx: &Ctx) -> (Stats, Report) {
         });
         st.merge(s);
     }
+    // boundary dates x binary times of day (2^k us / ms / s, multiples of 2^32 us)
+    let btods = pools::binary_times_of_day();
+    let bdates = pools::date_pool(seed, 60);
+    for u in UNITS {
+        let b = bounds(u);
+        let (bref, tref, dref) = (&b, &btods, &bdates);
+        let s = par_sweep(bdates.len() as u64, 4, |range, st| {
+            for k in range {
+                let n = dref[k as usize] as i32;
+                for &t in tref.iter() {
+                    st.evaluations += 1;
+                    st.nontrivial_enum += 1;
+                    if let Err(m) = check_trunc(1, u, bref, n, t as i64) {
+                        st.fail(k, Case::new(P, "trunc", vec![1, u.index() as i128, n as i128, t], vec![]), m);
+                        return;
+                    }
+                    if t % 1_000_000 == 0 {
+                        st.evaluations += 1;
+                        if let Err(m) = check_trunc(2, u, bref, n, t as i64) {
+                            st.fail(k, Case::new(P, "trunc", vec![2, u.index() as i128, n as i128, t], vec![]), m);
+                            return;
+                        }
+                    }
+                }
+            }
+        });
+        st.merge(s);
+    }
     st.section("every_second_of_sampled_days", &mut mark);
 
     let rep = Report {
